@@ -285,8 +285,9 @@ def check_entry(case, ctx):
 TARGETS = ['ascii', 'latin-1', 'koi8-r', 'shift_jis', 'utf-8', 'utf-16', 'cp1252', 'UTF-8', 'x-nope']
 EXTRA = ['.é { content: "€ 中 \U0001F600"; background: url(ä/ö.png) } /* комментарий */ #中 > .x-é::before { font-family: "Ж" }',
          'a { content: "\\d800 x" }', '@import "é.css"; @namespace п "http://п.example"; п|a { top: 0 }', '@é-rule "中"; .a[title="ü"] { top: 0 }', '']
-CHARS = ['é', 'ü', 'ÿ', 'ß', 'Ж', 'я', '中', '€', '\U0001F600', '\u00a0', '\u2028', '\u0100', 'ｱ', 'a', 'z', '0', '-', '_']
-TEXTONLY = [' ', '\x7f', '(', "'", ';', '{']
+CHARS = ['é', 'ü', 'ÿ', 'ß', 'Ж', 'я', '中', '€', '\U0001F600', '\U00100000', '\U0010FFFF', '\uffff', '\u00a0', '\u2028', '\u0100', 'ｱ',
+         'a', 'f', 'z', '0', '9', '-', '_']
+TEXTONLY = [' ', ' ', '\t', '\x7f', '(', "'", ';', '{']
 ESCAPED = ['\\d800 ', '\\dfff ', '\\E9 ', '\\20AC ', '\\1F600 ', '\\10FFFF ', '\\a0 ']
 word = st.lists(st.one_of(st.sampled_from(CHARS), st.sampled_from(CHARS), st.sampled_from(ESCAPED), st.sampled_from(TEXTONLY)),
                 min_size=1, max_size=5)
